@@ -19,12 +19,13 @@ TRUSTED_NUMERIC = [
 
 class Unit:
     def __init__(self, cls, src, spec, defines=(), header='masa_internal.h', select=None, skip=('init_var',),
-                 replace=None, frame_ok=None, timeout=None):
+                 replace=None, frame_ok=None, timeout=None, tag='', key_suffix='.contract'):
         self.cls, self.src, self.spec, self.defines, self.header = cls, src, spec, list(defines), header
         self.select = select          # regex on member-function name: which functions this property covers
         self.skip = skip
         self.replace = replace or {}  # cname -> [callee cnames replaced by their contract]
         self.timeout = timeout
+        self.tag, self.key_suffix = tag, key_suffix   # pinned "as-coded" characterisations of known findings use another key
         self.decl = None
         self.funcs = []
         self.dir = None
@@ -49,7 +50,7 @@ def harness_text(f, unit_file='unit.c'):
 
 
 def prepare_unit(u, base):
-    u.dir = os.path.join(base, u.cls)
+    u.dir = os.path.join(base, u.cls + u.tag)
     os.makedirs(u.dir, exist_ok=True)
     u.decl, u.funcs = xtract.extract_class(os.path.join(SRC, u.src), os.path.join(SRC, u.header), u.cls, skip=u.skip)
     text = xtract.render_unit(u.cls, u.decl, u.funcs, u.spec, prelude='real.h', defines=u.defines)
@@ -196,7 +197,7 @@ def differs(a, b):
     return abs(x - y) > Decimal('1e-9') * sc
 
 
-def run_numeric(prop, units, tier, seed, trusted_extra=(), design_ref='', lemmas=()):
+def run_numeric(prop, units, tier, seed, trusted_extra=(), design_ref='', lemmas=(), api_groups=None, api_only=None, explanation=None):
     t0 = time.time()
     rep = Report(prop)
     base = scratch('num-' + prop)
@@ -262,9 +263,9 @@ def run_numeric(prop, units, tier, seed, trusted_extra=(), design_ref='', lemmas
     for (u, f, hf), r in results:
         solver_s += r.seconds
         checker_cmd = checker_cmd or r.cmd
-        per_fn.append({'function': f.cname, 'status': r.status, 'backend': r.backend, 'seconds': round(r.seconds, 2), 'canary': r.canary,
+        per_fn.append({'function': f.cname + getattr(u, 'tag', ''), 'status': r.status, 'backend': r.backend, 'seconds': round(r.seconds, 2), 'canary': r.canary,
                        'obligations': len(r.obligations), 'source_sha256': f.sha})
-        key = f.cname + '.contract'
+        key = f.cname + getattr(u, 'key_suffix', '.contract')
         if r.status == 'discharged' and r.canary != 'reachable':
             # vacuity guard could not be decided by the solvers: fall back to concrete reachability of the contract's
             # precondition in the native twin (weaker: shows requires is satisfiable over the reals, not the axioms' consistency)
@@ -313,6 +314,23 @@ def run_numeric(prop, units, tier, seed, trusted_extra=(), design_ref='', lemmas
         if os.environ.get('VF_VERBOSE'):
             sys.stderr.write(r.log[-3000:] + '\n')
 
+    api_extra = {}
+    if api_groups:
+        import apicheck
+        abase = os.path.join(base, 'api')
+        try:
+            ajobs, anot, ainfo = apicheck.build(set(api_groups), abase, only=api_only)
+            ares = apicheck.run_jobs(ajobs, abase, tier)
+            a_dis, a_per, a_samples = apicheck.account(rep, ares, abase)
+            n_obl += a_dis
+            n_dis += a_dis
+            per_fn += a_per
+            samples += a_samples[:2]
+            not_under += ['%s: %s' % x for x in anot]
+            api_extra = {'api_extraction': ainfo, 'api_functions_under_contract': [j[0] for j, r in ares]}
+            trusted_extra = list(trusted_extra) + apicheck.TRUSTED_API
+        except ExtractionBreak as e:
+            rep.undecide('extraction break (API layer): %s' % e)
     cov = {'obligations': n_obl + len(rep.violations) + len(rep.undecided), 'discharged': n_dis,
            'checker_cmd': checker_cmd or 'goto-cc | goto-instrument --dfcc --enforce-contract | cbmc --cvc5',
            'trusted_base': TRUSTED_NUMERIC + list(trusted_extra),
@@ -322,9 +340,10 @@ def run_numeric(prop, units, tier, seed, trusted_extra=(), design_ref='', lemmas
            'extraction_rule_hits': extraction, 'extraction_notes': notes[:50],
            'known_finding_obligations': kf_obl, 'bounded': bounded,
            'samples': samples or [{'note': 'no obligation discharged'}],
-           'explanation': 'each function of /repo/src is extracted mechanically to C each run and its contract '
+           'explanation': explanation or 'each function of /repo/src is extracted mechanically to C each run and its contract '
                           '(ensures ret == PDE operator applied to the documented field jet) is enforced by goto-instrument --dfcc; '
                           'every obligation listed was discharged by the SMT back end named per function'}
+    cov.update(api_extra)
     write_evidence(prop, tier, seed, 'proof', cov, TRUSTED_NUMERIC + list(trusted_extra), time.time() - t0, len(rep.violations))
     print('%s: %d functions under contract, %d obligations, %d discharged, %d violations, %d undecided, %d known findings (%.1fs)' % (
         prop, len(results), cov['obligations'], n_dis, len(rep.violations), len(rep.undecided), len(rep.known_hits), time.time() - t0))
